@@ -61,3 +61,19 @@ reg("C15",
     "Every variant is expanded by the repository's own entry functions and each trait's generated items are compared token-for-token with the merged attribute-macro baseline; impls must also appear in listing order. Exhaustive over the seed set and relation instances.",
     "Bound: ~900 seeds (quick) incl. every derive_ex item of the test-suite and docs and all pairs of the 9 basic traits on 4 plain items; lists up to 9 traits (all compositions), permutations capped at 24 (quick) / 120 (thorough) per seed.",
     "DESIGN.md 5/C15")
+
+reg("C11",
+    "bounded exhaustive enumeration of shapes x default-variant selections x per-field #[default(expr)] expression kinds x type-level values x bound-argument flavours x entry points, compiled with the real proc-macro and executed against a reference constructor; invalid selections checked on the in-process expander",
+    "Each case is compiled by real rustc against the repository's proc-macro and executed; default() must print (Debug) exactly like the reference constructor built from the documented rule (type-level value wins; else struct / #[default] variant / only variant; Into exactly for string literals and paths - field types make a missing or superfluous Into a compile error, which counts as a violation). Enums with no or several default variants and a value on a variant attribute must expand to compile_error!. Exhaustive within the bound.",
+    "Bound: three generators (per-field expressions: 16 kinds x 3 bodies x struct/enum, <=1 (quick) / <=2 (thorough) attributed fields; variant selection: <=2/3 variants x 3/5 variant kinds x every marking; type-level values: 6 shapes x 3 value kinds x markings), each x {no bound args, bound(T: Copy, ..), bound(T)} x 2 entry points.",
+    "DESIGN.md 5/C11")
+reg("C16",
+    "explicit-state breadth-first search over structure-aware mutations of the seed corpus (every derive_ex item of the test-suite and documentation + generator output) with a seen-set on canonical token text; every reached state expanded twice by the real expander",
+    "Every state (entry point, argument list, item) reached within the depth bound is expanded twice in-process under catch_unwind: no panic, the output parses as Rust items, every macro item is a compile_error! with a non-empty message, and both expansions are textually identical (fresh RandomState per expansion exposes hash-order dependence). States, transitions and per-depth counts are reported; a state cap sets exhaustive=false if hit.",
+    "Bound: depth 1 (quick, ~45k states) / depth 2 (thorough, ~6M states) over delete/duplicate/swap/replace of attributes, arguments (one nesting level), fields, variants, generic parameters; where/generics deletion; renaming to raw / generator-used identifiers; entry switch; unsupported item kinds. Termination is observed only as completion of the run (no per-state watchdog).",
+    "DESIGN.md 5/C16")
+reg("C19",
+    "exhaustive enumeration, per seed item, of dump placements (shared, each single trait, first+last, all-but-first, on impl items, on one of two derive_ex lists) x entry points on the real expander, comparing the dumped text token-for-token with the code generated without dump",
+    "Every placement is expanded by the repository's own entry functions; each dumped trait's slot must be a compile_error! whose text after the `dump:` header re-lexes to exactly the tokens generated without dump, undumped traits and the item must be unchanged, and errors of rejected traits must stay the same.",
+    "Bound: ~900 seeds (generators + corpus) x up to 9 placements x 2 entry points; token comparison ignores spacing. The rustc rendering of the message is not compared (channel E).",
+    "DESIGN.md 5/C19")
